@@ -283,7 +283,7 @@ func rulesC11(w *World, r *Report) {
 		if sk == nil {
 			r.Violate("C11.R3", funcName(sd)+":skeleton", w.pos(sd.Pos()), msg)
 		} else {
-			ruleVerdict(w, r, "C11.R3", a, sk, false)
+			ruleVerdict(w, r, "C11.R3", a, sk, true) // sum-diff makes the window/step agreement test of its siblings (D16)
 			ruleOneClock(w, r, "C11.R3", a, sk)
 			ruleUntilDefault(w, r, "C11.R3", sd, []*ssa.Function{a.readWhisperFile, a.sumWhisperFile})
 			ruleParseWindowCheck(w, r, "C11.R3", "SumDiffCommand")
